@@ -389,11 +389,11 @@ def main(argv):
                 known_hits.append((k, ob))
                 continue
             wit = r.get("witness") or ({"found": False, "note": "witness search skipped"} if a.no_witness else run_witness(u, a.repo, bdir))
-            # a refutation over a lifted function in which code was *abstracted* (L6: loop havoc, L17b: an observable the function no longer binds, L20: unsupported
+            # a refutation over a lifted function in which code was *abstracted* (L6: loop havoc, L17b: an observable the function no longer binds, S8: a kept variable the function no longer binds, L20: unsupported
             # iterator chain) says "not provable for the abstraction"; it is believed only when the witness search
             # replays a failing input on the real code - otherwise the unit is undecided (exit 2), never an alarm
-            abstracted = [k for k in ("L6", "L20", "L17b") if (r.get("rewrites") or {}).get(k)]
-            if abstracted and u["engine"] == "R" and not a.no_witness and not wit.get("found"):
+            abstracted = [k for k in ("L6", "L20", "L17b", "S8") if (r.get("rewrites") or {}).get(k)]
+            if abstracted and u["engine"] in ("R", "S") and not a.no_witness and not wit.get("found"):
                 r2 = dict(r, reason=f"obligation {ob['name']} fails only over abstracted code ({', '.join(abstracted)}) and the witness search found no failing input on the real code")
                 undecided.append((u, r2))
                 continue
